@@ -15,12 +15,14 @@ from lcsa.model import Undecided, unparse, is_self_attr
 from lcsa.dt import compare_rows
 from lcsa.sym import Evaluator, Path, ObjV, ListAcc, _Frame, fmt_conds
 from lcsa import bind
-from props.common import SEQ, SP, SEQ_PATH, check_api
+from props.common import CONDITIONAL_CALLEES, SEQ, SP, SEQ_PATH, check_api
 
 STY = {"S", "T", "Y"}
 
 
 def run(ck, prog):
+    from props.common import check_memos
+    ck.attempt(check_memos, ck, prog)
     ck.explanation = (
         "The body of the setter's loop is enumerated into a decision table for one generic requested site (an integer atom), "
         "with `residue at that index is S/T/Y` and `index already stored` as uninterpreted booleans and the append recorded as "
@@ -134,7 +136,7 @@ def _sty_sets(ck, prog):
 
 
 def _effects(ck, prog):
-    E = Effects(prog)
+    E = Effects(prog, cut=CONDITIONAL_CALLEES)
     s = E.of(SEQ, "Sequence.setPhosPhoSites")
     ck.ob("EFF", SEQ_PATH + ":Sequence.setPhosPhoSites", {k: sorted(v) for k, v in s.self_writes.items()} == {"phosphosites": ["mutate"]},
           expected={"phosphosites": ["mutate"]}, found={k: sorted(v) for k, v in s.self_writes.items()}, slot="writes",
